@@ -137,7 +137,7 @@ class PersistentRemoteWorker(PersistentWorker, RemoteWorker):
     # Child process, run the main loop
     def do_work(self): 
         while not self._stop:
-            args = copy.deepcopy(self._args)
+            args = list(copy.deepcopy(self._args)) # default arguments might be given as a tuple
             kwargs = copy.deepcopy(self._kwargs)
             if is_windows():
                 # On Windows we have to provide an extra way of signalling
